@@ -51,6 +51,7 @@ def run(chk):
                       timeout=600)
     if not chk.ingest(res, "c20 exhaustive monitor") and res.rc != 0:
         chk.sanitizer["reports"] += 1
+    boltzmann_kb(chk, work)
     chk.extra["exhaustive"] = True
     chk.extra["reference"] = ("CODATA 2018 (a0, e, Eh, u, kB, hbar, N_A), SI "
                               "prefixes, thermochemical calorie 4.184 J "
@@ -72,6 +73,79 @@ def run(chk):
         "judged)",
         "the DL_POLY writer is used exactly once in the process"]
     shutil.rmtree(work, ignore_errors=True)
+
+
+def boltzmann_kb(chk, work):
+    """kB as applied by csg_boltzmann's Boltzmann inversion (another place that
+    encodes kB*T in kJ/mol): U_i = -kB T ln(p_i/p_max) must hold with the CODATA
+    kB for the default temperature and after `tab set T <value>` (a two-step
+    command sequence), observed on the real executable"""
+    import math
+    import random
+    d = os.path.join(work, "boltz")
+    os.makedirs(d)
+    rng = random.Random(7)
+    nmol, nfr = 40, 6
+    open(os.path.join(d, "topol.xml"), "w").write(
+        '<topology>\n <molecules>\n  <molecule name="DIM" nmols="%d" nbeads="2">\n'
+        '   <bead name="A" type="A" mass="1" q="0" />\n   <bead name="B" type="A" mass="1" q="0" />\n'
+        '  </molecule>\n </molecules>\n <bonded>\n  <bond>\n   <name>bond</name>\n   <beads>\n    DIM:A DIM:B\n'
+        '   </beads>\n  </bond>\n </bonded>\n</topology>\n' % nmol)
+    with open(os.path.join(d, "traj.gro"), "w") as f:
+        for fr in range(nfr):
+            f.write("frame t= %d.0\n%5d\n" % (fr, 2 * nmol))
+            k = 1
+            for m in range(nmol):
+                a = [rng.uniform(1, 9) for _ in range(3)]
+                bl = rng.gauss(0.25, 0.03)
+                u = [rng.gauss(0, 1) for _ in range(3)]
+                nu = math.sqrt(sum(x * x for x in u))
+                b = [a[i] + bl * u[i] / nu for i in range(3)]
+                for nm, p in (("A", a), ("B", b)):
+                    f.write("%5d%-5s%5s%5d%8.3f%8.3f%8.3f\n" % (m + 1, "DIM", nm, k, p[0], p[1], p[2]))
+                    k += 1
+            f.write("%10.5f%10.5f%10.5f\n" % (10, 10, 10))
+    temps = [None, 300.0, 450.0, 77.0]
+    cmds = ["hist set n 30", "tab set n 30", "hist hist.dat *:bond:*"]
+    for k, t in enumerate(temps):
+        if t is not None:
+            cmds.append("tab set T %g" % t)
+        cmds.append("tab pot%d.dat *:bond:*" % k)
+    cmds.append("q")
+    exe = os.path.join(vf.flavour_dir("asan"), "csg", "src", "csg_boltzmann", "csg_boltzmann")
+    vf.build_flavour("asan", ["csg_boltzmann"])
+    res = vf.run_proc([exe, "--top", "topol.xml", "--trj", "traj.gro", "--no-map"], env=vf.lib_env("asan"),
+                      cwd=d, timeout=300, stdin=("\n".join(cmds) + "\n").encode())
+    if not chk.proc_result(res, "csg_boltzmann interactive run", {"commands": cmds}):
+        return
+    KB = 8.314462618e-3  # kJ/(mol K), CODATA 2018 (R)
+
+    def col(path, c):
+        return [float(l.split()[c]) for l in open(path) if l.strip() and not l.startswith("#")]
+    try:
+        p = col(os.path.join(d, "hist.dat"), 1)
+        pots = [col(os.path.join(d, "pot%d.dat" % k), 1) for k in range(len(temps))]
+    except (OSError, ValueError, IndexError) as e:
+        chk.inconclusive.append("csg_boltzmann output not readable: %s" % e)
+        return
+    pmax = max(p)
+    for k, t in enumerate(temps):
+        T = 300.0 if t is None else t
+        ratios = []
+        for pi, ui in zip(p, pots[k]):
+            if pi > 0 and pi < 0.9 * pmax and len(p) == len(pots[k]):
+                ratios.append(ui / (-T * math.log(pi / pmax)))
+        chk.count("csg_boltzmann_kB", 1, 1 if ratios else 0)
+        if not ratios:
+            chk.inconclusive.append("csg_boltzmann: no usable bins")
+            continue
+        kb = sorted(ratios)[len(ratios) // 2]
+        chk.counters["csg_boltzmann_effective_kB_case%d_x1e9" % k] = int(kb * 1e9)
+        if not abs(kb - KB) <= 5e-5 * KB or max(abs(r - kb) for r in ratios) > 1e-4 * KB:
+            chk.violation("app/csg_boltzmann/boltzmann-constant", {
+                "commands": cmds, "temperature": T, "set_explicitly": t is not None,
+                "effective_kB_kJ_per_mol_K": kb, "expected": KB},
+                "csg_boltzmann 'tab' does not return U = -kB*T*ln(p/p_max) in kJ/mol with the CODATA Boltzmann constant")
 
 
 def replay(path):
